@@ -45,9 +45,16 @@ impl ProgSrc {
 }
 
 /// base pool + segment family (k slots over the first a segments) + corpus json up to max bytes
+/// the two pool programs that pause inside a forked thread / with an operand waiting on the
+/// evaluation stack (long line sequences: only the checks that need such pauses add them)
+pub fn pause_programs() -> Vec<ProgSrc> {
+    pool::base_sources().into_iter().filter(|(n, _)| n.starts_with("mid-")).map(|(n, s)| ProgSrc::Source(n.to_string(), s.to_string())).collect()
+}
+
 pub fn program_set(seg_k: usize, seg_a: usize, corpus_max_bytes: usize) -> Vec<ProgSrc> {
     let mut v: Vec<ProgSrc> = pool::base_sources()
         .into_iter()
+        .filter(|(n, _)| !n.starts_with("mid-"))
         .map(|(n, s)| ProgSrc::Source(n.to_string(), s.to_string()))
         .collect();
     if seg_k > 0 {
@@ -373,17 +380,26 @@ pub struct PairSpec<'a> {
 }
 
 pub fn run_pairs(prog: &Rc<Prog>, setup: &Setup, spec: &PairSpec, stats: &mut Stats) {
+    run_pairs_sharded(prog, setup, spec, stats, 0, 1)
+}
+
+/// the same, for the prefixes whose index is `shard` modulo `nshards` (a program with a large
+/// history tree is spread over several workers; every shard enumerates the prefixes again)
+pub fn run_pairs_sharded(prog: &Rc<Prog>, setup: &Setup, spec: &PairSpec, stats: &mut Stats, shard: usize, nshards: usize) {
     use crate::inst::Inst;
     use crate::report::Violation;
     let hs = sigma_by_name(spec.hist_sigma, prog);
     let ls = sigma_by_name(spec.lock_sigma, prog);
     let mut prefixes: Vec<(Vec<Op>, Value)> = vec![];
-    hx::explore(prog, setup, spec.hist_depth, &*hs, true, stats, &mut |h, _r, o, _i, _s| {
+    let mut scratch = Stats::default();
+    hx::explore(prog, setup, spec.hist_depth, &*hs, true, if shard == 0 { &mut *stats } else { &mut scratch }, &mut |h, _r, o, _i, _s| {
         prefixes.push((h.to_vec(), o.clone()));
         true
     });
-    stats.add("prefixes", prefixes.len() as u64);
-    for (prefix, obs) in &prefixes {
+    if shard == 0 {
+        stats.add("prefixes", prefixes.len() as u64);
+    }
+    for (prefix, obs) in prefixes.iter().enumerate().filter(|(i, _)| i % nshards == shard).map(|(_, p)| p) {
         if obs.get("dead").is_some() {
             continue;
         }
